@@ -12,6 +12,7 @@ import (
 	"sort"
 	"strconv"
 	"strings"
+	"time"
 
 	"github.com/zeromicro/go-zero/verifshim/vlib"
 )
@@ -63,12 +64,18 @@ func shardList(thorough bool) []string {
 	}
 	add("h2", EHTTP, ph)
 	if thorough {
-		for _, e := range directEntries {
-			add("f3", e, p3)
+		// parts-major: the completed prefix of a time-boxed run is "the first k blocks of primary
+		// specs (simplest kinds first) on every entry point"
+		for i := 0; i < p3; i++ {
+			for _, e := range directEntries {
+				out = append(out, shardSpec{"f3", e, i, p3}.name())
+			}
 		}
 	}
 	return out
 }
+
+const nF3Siblings = 6 // plain, optional, default, optional=dep, optional=!dep, optional=dep+range
 
 var sources = []string{"form", "path", "header", "json"}
 
@@ -88,7 +95,7 @@ func (x *runner) evalType(entry string, fs []Field, fams [][]Tok) {
 	if x.stopped {
 		return
 	}
-	if x.cfg.Expired() {
+	if expired(x.cfg) {
 		x.stopped = true
 		return
 	}
@@ -163,6 +170,16 @@ func (x *runner) report(c *Case, fd *finding) {
 	x.r.Violation(class, fmt.Sprintf("%s  type=%s  input=%s  [entry %s]", sfd.Desc, sc.Type, sc.Input, sc.Entry), sc)
 }
 
+// expired: the soft time box of the whole run. The parent publishes its absolute deadline in the
+// environment, because a worker's own -budget is never below 5 s (vlib) and hundreds of shards
+// started after the deadline would otherwise add up.
+func expired(cfg *vlib.Config) bool {
+	if d, err := strconv.ParseInt(os.Getenv("C08_DEADLINE_UNIX"), 10, 64); err == nil && d > 0 {
+		return time.Now().Unix() >= d
+	}
+	return cfg.Expired()
+}
+
 func famsFor(entry string, fs []Field, primary int, thorough, httpReq bool) [][]Tok {
 	fams := make([][]Tok, len(fs))
 	for i, f := range fs {
@@ -204,19 +221,18 @@ func (x *runner) runShard(s shardSpec) {
 	case "f3":
 		// primary at position 0, 1 or 2; the first sibling may depend on the primary, the
 		// second sibling on the first sibling (dependency chains and cycles).
-		n := 0
+		// The value options of the primary field are the quick-tier ones here (all 12 range
+		// forms and the out-of-range defaults are covered with one and two fields).
 		for p := 0; p < 3; p++ {
 			s1, s2 := (p+1)%3, (p+2)%3
-			for _, pf := range primarySpecs(p, 3, th) {
-				n++
-				if n%s.parts != s.part {
-					continue
-				}
-				for _, f1 := range siblingSpecs(s1, p, false) {
-					for _, f2 := range siblingSpecs(s2, s1, false) {
+			ps := primarySpecs(p, 3, false)
+			lo, hi := s.part*len(ps)/s.parts, (s.part+1)*len(ps)/s.parts
+			for _, pf := range ps[lo:hi] {
+				for _, f1 := range siblingSpecs(s1, p, false)[:nF3Siblings] {
+					for _, f2 := range siblingSpecs(s2, s1, false)[:nF3Siblings] {
 						fs := make([]Field, 3)
 						fs[p], fs[s1], fs[s2] = pf, f1, f2
-						x.evalType(s.entry, fs, famsFor(s.entry, fs, p, th, false))
+						x.evalType(s.entry, fs, famsFor(s.entry, fs, p, false, false))
 					}
 				}
 			}
@@ -293,8 +309,39 @@ func (x *runner) finishShard(s shardSpec) {
 	x.r.Count("outcome:rejected-demanded", int(x.outcomes[ocRejectedDemanded]))
 	x.r.Count("outcome:rejected-allowed", int(x.outcomes[ocRejectedAllowed]))
 	if x.stopped {
-		x.r.NotExhaustive("time box reached in shard " + s.name() + " after " + fmt.Sprint(x.nTypes) + " types")
+		x.r.Count("shards_cut:"+s.group+":"+s.entry, 1)
+		x.r.NotExhaustive("cut " + s.name())
+	} else {
+		x.r.Count("shards_complete:"+s.group+":"+s.entry, 1)
 	}
+}
+
+// summariseCuts replaces the per-shard time-box notes by one line saying what was fully covered.
+func summariseCuts(r *vlib.Report) {
+	if len(r.NotExh) == 0 {
+		return
+	}
+	var full, part []string
+	seen := map[string]bool{}
+	for k := range r.Counters {
+		for _, pre := range []string{"shards_cut:", "shards_complete:"} {
+			if strings.HasPrefix(k, pre) {
+				seen[strings.TrimPrefix(k, pre)] = true
+			}
+		}
+	}
+	for g := range seen {
+		cut, done := r.Counters["shards_cut:"+g], r.Counters["shards_complete:"+g]
+		if cut == 0 {
+			full = append(full, g)
+		} else {
+			part = append(part, fmt.Sprintf("%s (%d of %d shards complete)", g, done, cut+done))
+		}
+	}
+	sort.Strings(full)
+	sort.Strings(part)
+	r.NotExh = []string{"soft time box reached; fully enumerated groups: " + strings.Join(full, " ") +
+		"; partially enumerated (blocks of primary specs, simplest kinds first): " + strings.Join(part, ", ")}
 }
 
 const rule = "one evaluation = one (entry point, generated struct type, input vector) executed on the real code and judged by the " +
@@ -313,6 +360,9 @@ func main() {
 		cfg.BudgetS = 1020 // soft box: 17 min of enumeration, leaves room for build and merge within 20 min
 	}
 	r.SetRule(rule)
+	if cfg.Shard == "" {
+		os.Setenv("C08_DEADLINE_UNIX", fmt.Sprint(cfg.Deadline().Unix()))
+	}
 	names := shardList(cfg.Thorough())
 	if cfg.Shard == "" {
 		if k := int(cfg.Seed % int64(len(names))); k > 0 { // the seed only rotates the order
@@ -320,7 +370,7 @@ func main() {
 		}
 		sizes := map[string]any{}
 		for n := 1; n <= 3; n++ {
-			sizes[fmt.Sprintf("primary_specs_%d_fields", n)] = len(primarySpecs(0, n, cfg.Thorough()))
+			sizes[fmt.Sprintf("primary_specs_%d_fields", n)] = len(primarySpecs(0, n, cfg.Thorough() && n < 3))
 		}
 		sizes["sibling_specs"] = len(siblingSpecs(1, 0, cfg.Thorough()))
 		sizes["ranges"] = map[bool]int{false: nQuickRanges, true: len(ranges)}[cfg.Thorough()]
@@ -337,6 +387,7 @@ func main() {
 		x.finishShard(s)
 	})
 	sortViolations(r)
+	summariseCuts(r)
 	r.Finish()
 }
 
